@@ -115,7 +115,9 @@ def uses(draw, table, plain_args=False):
                 nargs = np_ + draw(st.integers(1, 3))
             args = []
             for _ in range(nargs):
-                pool = ["1", "x", "", "(a, b)", "f(1, 2)", "a b", "\"s,t\"", "','", "(", "[1, 2]", "-1", "\"a\\\"b\"", "'\\''", "a  +   b", "/*c*/ q"]
+                pool = ["1", "x", "", "(a, b)", "f(1, 2)", "a b", "\"s,t\"", "','", "(", "[1, 2]", "-1", "\"a\\\"b\"", "'\\''", "a  +   b", "/*c*/ q",
+                        # line breaks inside an argument are white space like any other, for substitution and for # (6.10.3p10)
+                        "p\nq", "unsigned\nlong", "(a,\nb)", "x +\ny", "\"s\"\n\"t\"", "a\n\nb", "a /*c*/\nb", "a\n  b", "a \nb", "-\n-x", "1\n.\n2"]
                 if not plain_args:
                     # avoid(stringify-arg-with-invocation): a recorded finding; see known_findings.json
                     pool += ["A", "B", "F", "G(1)", "F(F(2))", "H", "C(3)(4)"]
@@ -165,7 +167,7 @@ def token_cases(draw):
         # parameters that are ONLY stringized: their arguments are not macro-expanded at all (6.10.3.1p1), also when they
         # contain invocations of function-like macros (the recorded finding concerns parameters used both ways)
         out.append("#define ZS(x) #x\n#define ZV(...) #__VA_ARGS__\n#define ZC(c, d) chk(#c, d)\n#define ZW(a) #a #a")
-        sargs = ["ZID(7)", "ZTWO(1, 2) + 3", "ZID (7)", "ZFST(1)", "ZFST(1, 2, 3)", "ZONE ZID(ZONE)", "ZID(ZID(1))", "ZNONE ZID()", "ZTWO(1)", "ZS(ZID(2))"]
+        sargs = ["ZID(7)", "ZTWO(1, 2) + 3", "ZID (7)", "ZFST(1)", "ZFST(1, 2, 3)", "ZONE ZID(ZONE)", "ZID(ZID(1))", "ZNONE ZID()", "ZTWO(1)", "ZS(ZID(2))", "ZONE\nZONE", "1\n+2", "a\nb\n\nc", "(1,\n(2,\n3))", "+\n+", "<\n<", "a\n"]
         for _ in range(draw(st.integers(1, 4))):
             a1 = draw(st.sampled_from(sargs))
             out.append(draw(st.sampled_from(["ZS(%s) ;", "ZV(%s) ;", "ZV(%s, ZID(3)) ;", "ZC(%s, ZID(4)) ;", "ZW(%s) ;", "ZS( %s ) ;"])) % a1)
